@@ -202,3 +202,15 @@ Theorem C01_leaves :
     NoDup (keys (mz_tree m)).
 Proof. exact leaves_exact. Qed.
 Print Assumptions C01_leaves.
+
+(* ... and no two entries share a path: a dataset in which two different statements end
+   up under the same path (two root nodes with a common property, ...) is never
+   merklized with one of them dropped or overwritten (checked per run by RDF/RunMz.v) *)
+Theorem C01_leaves_distinct_paths :
+  forall T Hd F cfg ds m,
+  merklize_ds T Hd F cfg None ds = Ok m ->
+  exists es,
+    entries_from_rdf F (h_prime (hasher_or Hd cfg)) ds = Ok es /\
+    NoDup (map e_key es) /\ distinct_paths (map e_key es) = true.
+Proof. exact leaves_distinct_paths. Qed.
+Print Assumptions C01_leaves_distinct_paths.
